@@ -56,6 +56,9 @@ see.  Two kinds of bytes are not counted by the implementation:
    `C13_nosync_batch_not_flushed` proves that `Commit` of a non-Sync batch does not move the flush
    mark at all.  Consequently the Threshold bound is proved for sequences of PLAIN operations
    (`C01.run`), not for sequences that contain non-Sync batches.
+
+(`DInv` through WHOLE histories — `Merge`, the adopting restart, later restarts, `Backup` — is
+`C13_history` in `Properties/C17History.lean`.)
 -/
 namespace XixiKV.C13
 open XixiKV XixiKV.Frame XixiKV.Record XixiKV.Index XixiKV.Engine XixiKV.Engine.BatchP
